@@ -114,4 +114,47 @@ theorem C02_range_strategy_independent (W : World P (Range V) V M) (hW : W.Range
 
 end AnyOrderDecides
 
+/-! ### Non-vacuity over a DISCRETE order: a concrete registry over `Range Nat` (the stand-in for `u32`) -/
+section ExampleNat
+
+/-- root 1 needs `a` in `[1, 3)`; `a` has versions 1 and 2 without dependencies -/
+def exampleWorldNat : World String (Range Nat) Nat Unit where
+  versions := fun p => if p = "root" then [1] else if p = "a" then [1, 2] else []
+  deps := fun p _ => if p = "root" then .available [("a", [(Bound.incl 1, Bound.excl 3)])] else .available []
+
+theorem exampleWorldNat_wf : exampleWorldNat.RangesWF := by
+  intro p v ds h d hd
+  unfold exampleWorldNat at h
+  simp only at h
+  split at h
+  · cases h
+    simp only [List.mem_singleton] at hd
+    subst hd
+    show Range.checkInvariants _ = true
+    decide
+  · cases h
+    cases hd
+
+def exampleRegistryNat : FiniteRegistry exampleWorldNat "root" where
+  pkgs := ["root", "a"]
+  root_mem := by simp
+  deps_mem := by
+    intro p v ds _ h d hd
+    unfold exampleWorldNat at h
+    simp only at h
+    split at h
+    · cases h
+      simp only [List.mem_singleton] at hd
+      subst hd
+      simp
+    · cases h
+      cases hd
+
+/-- `C02_range_resolve_returns` applies to it -/
+example (debug : Bool) :=
+  C02_range_resolve_returns (Pr := Nat) (E := Unit) exampleWorldNat exampleWorldNat_wf "root" 1
+    exampleRegistryNat debug
+
+end ExampleNat
+
 end Pubgrub.C02
